@@ -90,6 +90,22 @@ CHECKS = {
               "known_findings.json (C05-*)."),
         design="DESIGN.md section 3, C05; Changes after round 0",
         technique="translation validation: real assembler run natively per source; go/ssa symbolic execution of the simulator on the emitted machine vs. a reference interpretation of the source on symbolic inputs, equality decided by z3"),
+    "C06": dict(
+        category="translation_validation",
+        text=("Metamorphic translation validation. For each fragment graph of a family (four fixed shapes - diamond with a tapped source, chain "
+              "through fragments whose result register differs from their input register, fork and join, one port feeding two instances - and "
+              "seeded random graphs of 2-5 instances over addone, subone, sum2, sumb, dbl, fan2, swapsum, mul2) and each partition of its instances "
+              "into processors (all collapsed, all separate, every convex two-block partition) the real basm front-end is RUN NATIVELY - fragment "
+              "analyzer/composer, link resolution and register allocation are not encodable - and z3 decides, per emitted machine, that its "
+              "simulation (all processors, handshaked links, bondmachine.VM.Step executed symbolically) delivers on every external output exactly "
+              "the value of the graph's dataflow expression FOR ALL input values, and delivers it within the horizon. All partitions are compared "
+              "with the same expression and hence with each other. The graph and partition space is sampled, the input space is quantified; "
+              "streams of several values, stalls, cyclic quotient graphs and fragments with jumps or immediates are outside."),
+        note=("Trusted: z3, go/ssa, /verif/symgo, cmd/bmnative, the dataflow evaluator in harness/c06.go. Known finding C06-io-order-deadlock "
+              "(partitions in which producer and consumer order their blocking transfers differently never deliver), identified per configuration "
+              "by a predicate the driver computes on the emitted programs."),
+        design="DESIGN.md section 3, C06; Changes after round 0",
+        technique="metamorphic translation validation: real assembler run natively per (graph, partition); go/ssa symbolic execution of the multi-processor simulator on symbolic inputs vs. the dataflow expression, decided by z3"),
     "C08": dict(
         category="proof",
         text=("(a) Decided on the regular languages themselves: the real matcher registry (AllMatchers after init plus one member of each "
